@@ -238,6 +238,8 @@ class ExtraOps:
             return
         w = self.w
         mode = op.get("ex", "none")
+        if mode == "real" and not t.all_bag_det:
+            mode = "truth"      # a real executor is only comparable when emptiness does not depend on physical order
         memo = {}
         try:
             truth = interp(w, t.rel, memo)
@@ -364,7 +366,7 @@ class ExtraOps:
         elif kind in ("chain", "join"):
             l = self.build_raw(ent.parents[0], memo)
             r = self.build_raw(ent.parents[1], memo)
-            if l is None or r is None:
+            if l is None or r is None or l.engine is not r.engine:
                 return None
             if kind == "chain":
                 o = Chain()
@@ -517,7 +519,8 @@ class ExtraOps:
             r = ops[1].mv
             if op.get("p") is not None and not pred_cols(op["p"]) <= (cols | set(r.cols)):
                 return "missing column in join predicate", (ColumnError,)
-            if t.engine != r.engine and not op.get("bt", True) and not op.get("tr", False):
+            if t.engine != r.engine and not op.get("bt", True) and not op.get("tr", False) \
+                    and not any(o.rel.is_join_identity for o in ops):      # documented elision of a join identity
                 return "join operands in different engines, no transfer allowed", (EngineError,)
         return None, ()
 
